@@ -255,3 +255,28 @@ func TestVerifWitness_C08_comment_fold_crosses_entry_end(t *testing.T) {
 	}
 	fmt.Println("WITNESS-HOLDS")
 }
+
+// C17 server.semanticTokenLength#ensures.delimited_extent: a code token covers its parentheses and a quoted commodity its
+// quotes (the lexer value drops them).
+func TestVerifWitness_C17_delimited_tokens_cover_delimiters(t *testing.T) {
+	content := "2024-01-01 (123) shop\n    assets:a  1 \"AAPL X\"\n    assets:b\n"
+	var code, com *semanticToken
+	toks := tokenizeForSemantics(content)
+	for i := range toks {
+		if toks[i].tokenType == TokenTypeCode {
+			code = &toks[i]
+		}
+		if toks[i].tokenType == TokenTypeCommodity {
+			com = &toks[i]
+		}
+	}
+	if code == nil || com == nil {
+		fmt.Println("WITNESS-FAILS no code / commodity token emitted")
+		return
+	}
+	if code.col != 11 || code.length != 5 || com.col != 16 || com.length != 8 {
+		fmt.Printf("WITNESS-FAILS \"(123)\" is columns 11..16 and \"\\\"AAPL X\\\"\" columns 16..24 of its line: code %d+%d, commodity %d+%d\n", code.col, code.length, com.col, com.length)
+		return
+	}
+	fmt.Println("WITNESS-HOLDS")
+}
